@@ -105,6 +105,10 @@ func (m *manager) Run() (err error) {
 			var poll Poll
 			poll, err = openPoll()
 			if err != nil {
+				// the pollers opened above are only in the local slice, m.Close() cannot reach them
+				for _, opened := range polls[len(m.polls):idx] {
+					_ = opened.Close()
+				}
 				return err
 			}
 			polls[idx] = poll
